@@ -9,7 +9,7 @@ directories (inside the project root, two levels below it, a directory whose own
 starts with `_`, a directory whose name contains glob metacharacters next to a decoy that
 the unescaped name would match) and under the `components/` / `ui/widgets/` directories
 of two generated apps (one a nested package).  For every element of the product
-  COMPONENTS.dirs {unset, [], [A], [A,B], [Path(A)], [(prefix,B)], [unnormalised A, A], [B, missing], [_under], [comp[1]]}
+  COMPONENTS.dirs {unset, [], [A], [A,B], [Path(A)], [(prefix,B)], [unnormalised A, A], [B, missing], [_under], [comp[1]], [A written with a `..` segment]}
   x STATICFILES_DIRS {[], [A], [(prefix,A), B]}  x INSTALLED_APPS {no app, one app, two apps incl. the nested one}
   x COMPONENTS.app_dirs {default, ["components","ui/widgets"], []}  x BASE_DIR as {str, Path}
 (the effective directories follow the documented rule: dirs if set, else non-empty
@@ -62,7 +62,7 @@ PID = "C20"
 LEVEL = "model_checking"
 DJANGO = {}
 
-PARTS_QUICK = ["pkg", "_priv", ".hid", "v1.2", "sub"]
+PARTS_QUICK = ["pkg", "_priv", ".hid", "v1.2", "init"]
 PARTS_THOROUGH = PARTS_QUICK + ["__pycache__", "x_y", "my-dir"]
 FILES = ["a.py", "_b.py", "__init__.py", "__main__.py", ".g.py", "my.comp.py", "a_b.py", "x.js", "_c.js", "__init__.js",
          "t.html", "a.pyi", "a.pyc", "ab.PY", "apy", "noext"]
@@ -95,7 +95,7 @@ def put_product(root, parts, depth, files=FILES):
     _touch(os.path.join(root, "pkg", "ns2", "n.py"))
     # directories that look like files
     _touch(os.path.join(root, "d.py", "j.py"))
-    _touch(os.path.join(root, "sub", "d.py", "j.py"))
+    _touch(os.path.join(root, "init", "d.py", "j.py"))
     _touch(os.path.join(root, "e.js", "k.js"))
     os.makedirs(os.path.join(root, "empty.py"), exist_ok=True)
     os.makedirs(os.path.join(root, "pkg", "__init__.py.d"), exist_ok=True)
@@ -131,7 +131,7 @@ def build_tree(tier):
 
 
 # --------------------------------------------------------------------------- configurations
-DIRS_OPTS = ["unset", "empty", "A_str", "A_B", "A_pathobj", "B_tuple", "A_unnormalised_twice", "B_and_missing", "C_underscore", "D_globmeta"]
+DIRS_OPTS = ["unset", "empty", "A_str", "A_B", "A_pathobj", "B_tuple", "A_unnormalised_twice", "B_and_missing", "C_underscore", "D_globmeta", "A_dotdot"]
 LEGACY_OPTS = ["none", "A_str", "A_tuple_and_B"]
 APPS_OPTS = ["none", "one", "two_nested"]
 APP_DIRS_OPTS = ["default", "custom", "empty"]
@@ -154,9 +154,11 @@ def make_config(tree, name):
         "unset": None, "empty": [], "A_str": [r["A"]], "A_B": [r["A"], r["B"]], "A_pathobj": [Path(r["A"])], "B_tuple": [("pfx", r["B"])],
         "A_unnormalised_twice": [os.path.join(proj, "other", "..", "components") + "/", r["A"]],
         "B_and_missing": [r["B"], os.path.join(proj, "does_not_exist")], "C_underscore": [r["C"]], "D_globmeta": [r["D"]],
+        # the only entry is an absolute path with a `..` segment (Path(__file__).parent / "../components" in a settings module)
+        "A_dotdot": [os.path.join(proj, "other", "..", "components")],
     }[d_opt]
     dirs_roots = {"unset": None, "empty": [], "A_str": ["A"], "A_B": ["A", "B"], "A_pathobj": ["A"], "B_tuple": ["B"], "A_unnormalised_twice": ["A"],
-                  "B_and_missing": ["B"], "C_underscore": ["C"], "D_globmeta": ["D"]}[d_opt]
+                  "B_and_missing": ["B"], "C_underscore": ["C"], "D_globmeta": ["D"], "A_dotdot": ["A"]}[d_opt]
     if dirs_val is not None:
         comp["dirs"] = dirs_val
     legacy_val = {"none": [], "A_str": [r["A"]], "A_tuple_and_B": [("pfx", r["A"]), r["B"]]}[l_opt]
@@ -389,11 +391,11 @@ def build_b(top, variant):
         mod(comps, "_priv/__init__.py", None)
         mod(comps, "_priv/z.py", None)
         mod(comps, ".hid/h.py", None)
-        mod(comps, "sub/__init__.py", pre + ".sub")
-        mod(comps, "sub/__main__.py", None)
-        mod(comps, "sub/x.js", None)
-        mod(comps, "sub/t.html", None)
-        mod(comps, "sub/y.pyi", None)
+        mod(comps, "init/__init__.py", pre + ".init")
+        mod(comps, "init/__main__.py", None)
+        mod(comps, "init/x.js", None)
+        mod(comps, "init/t.html", None)
+        mod(comps, "init/y.pyi", None)
         _touch(os.path.join(proj, "__init__.py"))
         os.makedirs(os.path.join(comps, "assets.py"))  # a directory, not a module
         os.makedirs(os.path.join(comps, "pkg", "deep", "d.py"))
@@ -412,9 +414,9 @@ def build_b(top, variant):
         _touch(os.path.join(apps, "c20bouter", "inner", "__init__.py"))
         ic = os.path.join(apps, "c20bouter", "inner", "components")
         mod(ic, "f.py", "c20bouter.inner.components.f")
-        mod(ic, "sub/g.py", "c20bouter.inner.components.sub.g")
-        mod(ic, "sub/__main__.py", None)
-        os.makedirs(os.path.join(ic, "sub", "assets.py"))
+        mod(ic, "init/g.py", "c20bouter.inner.components.init.g")
+        mod(ic, "init/__main__.py", None)
+        os.makedirs(os.path.join(ic, "init", "assets.py"))
     st = {
         "BASE_DIR": base,
         "COMPONENTS": {"autodiscover": False, "dirs": [comps] if use_dirs else [], "app_dirs": ["components"] if use_apps else []},
